@@ -114,12 +114,15 @@ Definition run_op (r : raw) : M unit :=
   (* 11 POOL_GET p reserve  -> name size capok *)
   | 11 => api opc (b <- pool_get_m (fun x => owner_pool x a0) (set_owner_pool a0) ;;
                    n <- name_of a0 (b_id b) ;; ret [n; b_size b; capok a1 (b_cap b)])
-  (* 12 BUF_RELEASE name : drop the BufferPtr if the user still holds it (no-op otherwise) *)
-  | 12 => api opc (oi <- buffer_of_name a0 ;;
-                   x <- get_ext ;;
-                   (if is_busy (snd oi) (p_busy (owner_pool x (fst oi)))
-                    then pool_recycle_m (fun x => owner_pool x (fst oi)) (set_owner_pool (fst oi)) (snd oi)
-                    else ret tt) ;;; ret [])
+  (* 12 BUF_RELEASE name : drop the BufferPtr if the user still holds it (no-op otherwise, also for unknown names) *)
+  | 12 => api opc (x <- get_ext ;;
+                   match nth_error (x_names x) (Z.to_nat a0) with
+                   | Some oi =>
+                       if (0 <=? a0) && is_busy (snd oi) (p_busy (owner_pool x (fst oi)))
+                       then pool_recycle_m (fun x => owner_pool x (fst oi)) (set_owner_pool (fst oi)) (snd oi) ;;; ret []
+                       else ret []
+                   | None => ret []
+                   end)
   (* 13 BUF_RESIZE name n : the user resizes a buffer it holds *)
   | 13 => api opc (oi <- buffer_of_name a0 ;;
                    pool_resize_m (fun x => owner_pool x (fst oi)) (set_owner_pool (fst oi)) (snd oi) a1 ;;; ret [])
